@@ -4,6 +4,7 @@ import (
 	"fmt"
 	"math"
 	"math/big"
+	"strconv"
 	"strings"
 	"unicode"
 
@@ -678,13 +679,39 @@ func NumericLooking(s string) bool {
 	return strings.HasPrefix(l, "inf") || strings.HasPrefix(l, "nan")
 }
 
+// NumericReading gives the number a string denotes if an implementation chooses
+// to coerce it (Bangla digits transliterated, then the usual float syntax).
+func NumericReading(s string) (float64, bool) {
+	var b strings.Builder
+	for _, r := range s {
+		if d := reflex.DigitValue(r); d >= 0 {
+			b.WriteByte(byte('0' + d))
+		} else {
+			b.WriteRune(r)
+		}
+	}
+	f, err := strconv.ParseFloat(b.String(), 64)
+	return f, err == nil
+}
+
 // index validates an index value against a length.
 func (in *interp) index(i Value, n int, line int) int {
 	switch i.K {
 	case KOpaque:
 		in.unspecified("index is an undetermined value")
 	case KStr:
-		if i.Fuzzy || NumericLooking(i.S) {
+		if i.Fuzzy {
+			in.unspecified("string with an unpinned number rendering used as an index")
+		}
+		if f, ok := NumericReading(i.S); ok {
+			// read as a string it is not a number, read as its number it must still be a valid index:
+			// both readings agree on an error unless the number is an integer in range
+			if math.IsNaN(f) || math.IsInf(f, 0) || f != math.Trunc(f) || f < 0 || f >= float64(n) {
+				in.fail(EIndex, line, "")
+			}
+			in.unspecified("numeric-looking string used as an index")
+		}
+		if NumericLooking(i.S) {
 			in.unspecified("numeric-looking string used as an index")
 		}
 		in.fail(EIndex, line, "")
@@ -757,7 +784,17 @@ func (in *interp) integer(v Value, line int) int64 {
 		}
 		return int64(v.N)
 	case KStr:
-		if v.Fuzzy || NumericLooking(v.S) {
+		if v.Fuzzy {
+			in.unspecified("string with an unpinned number rendering under a bitwise operator")
+		}
+		if f, ok := NumericReading(v.S); ok {
+			// as a string it is unsupported, as its number it must be integral: both readings fail otherwise
+			if math.IsNaN(f) || math.IsInf(f, 0) || f != math.Trunc(f) {
+				in.fail(EType, line, "")
+			}
+			in.unspecified("numeric-looking string under a bitwise operator")
+		}
+		if NumericLooking(v.S) {
 			in.unspecified("numeric-looking string under a bitwise operator")
 		}
 	case KOpaque:
